@@ -38,6 +38,7 @@ type Term struct {
 	I    int64
 	B    bool
 	Re   *Regex // for in_re
+	Hi   int64  // for Int vars: known upper bound (0 = unknown); lower bound 0 implied when Hi > 0
 	key  string
 }
 
@@ -291,8 +292,11 @@ func exactLen(t *Term) (int64, bool) {
 			n += k
 		}
 		return n, true
-	case t.Op == "char": // single code point variable wrapper
+	case t.Op == "str.from_code": // only built over code variables constrained to valid code points
 		return 1, true
+	case t.Op == "str.at" && t.Args[1].IsConst():
+		// at(s,i) has length 1 when i is within a known-length prefix; unknown otherwise
+		return 0, false
 	}
 	return 0, false
 }
@@ -385,6 +389,19 @@ func Eq(a, b *Term) *Term {
 		a, b = Concat(pa...), Concat(pb...)
 		if a.Key() == b.Key() {
 			return TrueT
+		}
+		if a.Op == "str.from_code" && b.Op == "str.from_code" {
+			return Eq(a.Args[0], b.Args[0])
+		}
+		if b.Op == "str.from_code" && a.IsConst() {
+			a, b = b, a
+		}
+		if a.Op == "str.from_code" && b.IsConst() {
+			r := []rune(b.S)
+			if len(r) != 1 {
+				return FalseT
+			}
+			return Eq(a.Args[0], IntT(int64(r[0])))
 		}
 		if a.IsConst() && b.IsConst() {
 			return BoolT(a.S == b.S)
@@ -629,8 +646,11 @@ func At(s, i *Term) *Term {
 			return At(s.Args[0], IntT(s.Args[1].I+i.I))
 		}
 	}
-	if s.Op == "str.at" && i.IsConst() && i.I == 0 {
+	if (s.Op == "str.at" || s.Op == "str.from_code") && i.IsConst() && i.I == 0 {
 		return s
+	}
+	if s.Op == "str.from_code" && i.IsConst() && i.I != 0 {
+		return StrT("")
 	}
 	return &Term{Op: "str.at", Args: []*Term{s, i}, Sort: SString}
 }
@@ -832,7 +852,7 @@ func FromCode(c *Term) *Term {
 		}
 		return StrT(string(rune(c.I)))
 	}
-	if c.Op == "str.to_code" && c.Args[0].Op == "str.at" {
+	if c.Op == "str.to_code" && (c.Args[0].Op == "str.at" || c.Args[0].Op == "str.from_code") {
 		return c.Args[0]
 	}
 	return &Term{Op: "str.from_code", Args: []*Term{c}, Sort: SString}
@@ -907,6 +927,13 @@ func BLen(a *Term) *Term {
 			parts = append(parts, BLen(p))
 		}
 		return Add(parts...)
+	}
+	if a.Op == "str.from_code" {
+		c := a.Args[0]
+		if c.Op == "var" && c.Hi > 0 && c.Hi < 128 {
+			return IntT(1)
+		}
+		return Ite(Lt(c, IntT(128)), IntT(1), Ite(Lt(c, IntT(2048)), IntT(2), Ite(Lt(c, IntT(65536)), IntT(3), IntT(4))))
 	}
 	return App("FIblen", SInt, a)
 }
